@@ -508,7 +508,7 @@ func runWorkMode(c workCfg, st vsync.Strategy, fine bool) *vsync.Outcome {
 	}
 	limit := c.stepBound() + 1
 	if fine {
-		limit *= 10
+		limit *= 12
 	}
 	mode := vsync.Coarse
 	if fine {
@@ -573,6 +573,12 @@ func workOracles(c workCfg, out *vsync.Outcome) (fs []finding) {
 	}
 	if begun[-1] > 0 {
 		bad("work/exactly-once", "f was called with a value that was never added")
+	}
+	if parv.WorkTouches > 0 {
+		for _, r := range hbRaces(out) {
+			bad("work/race-free", "a field of Work is accessed outside the protection of w.mu: "+r+" (happens-before check over the access markers of the instrumented copy)")
+			break
+		}
 	}
 	if out.Deadlock {
 		bad("work/no-deadlock", fmt.Sprintf("DEADLOCK: no goroutine runnable, threads %v have not returned (Do returned: %v)", out.Blocked, doret))
@@ -929,6 +935,29 @@ func mainWork() {
 	thorough := fl.Tier == "thorough"
 	r := common.NewRNG(fl.Seed)
 	exhaustiveAll := true
+	// 0. API contract probes (single goroutine, no scheduler): Do is for one use, n must be >= 1
+	{
+		panics := func(f func()) (p bool) {
+			defer func() { p = recover() != nil }()
+			f()
+			return
+		}
+		w := &parv.Work{}
+		w.Add(1)
+		calls := 0
+		w.Do(1, func(any) { calls++ })
+		second := panics(func() { w.Do(1, func(any) { calls++ }) })
+		zero := panics(func() { (&parv.Work{}).Do(0, func(any) {}) })
+		res.Count(fmt.Sprintf("probe:second-Do-panics=%v", second))
+		res.Count(fmt.Sprintf("probe:Do(0)-panics=%v", zero))
+		if calls != 1 {
+			violate("work/exactly-once", fmt.Sprintf("sequential probe: one item, Do(1) twice: f called %d times", calls),
+				map[string]string{"prop": "C09", "cfg": "1|-|0", "decisions": "-", "mode": "direct", "text": "w.Add(1); w.Do(1,f); w.Do(1,f) on a single goroutine"})
+		}
+		if !second {
+			noteOnce("a second Do on the same Work did not panic (the documentation says Do should only be used once; the model covers one Do)")
+		}
+	}
 	// 1. the model's own state space on the small configurations
 	for k, sg := range smallGraphs() {
 		for n := 1; n <= 3; n++ {
@@ -2066,6 +2095,46 @@ func raceEvidence(what string, dur time.Duration, fallback bool) {
 	}
 }
 
+// usersEvidence: the repository's own users of par.Cache (goproxytest's zip/archive caches under concurrent
+// requests, testscript's execCache under parallel scripts) built with -race.  Supporting evidence (thorough tier).
+func usersEvidence(dur time.Duration) {
+	bin := filepath.Join(fl.Work, "parusers")
+	if fl.Work == "" {
+		bin = filepath.Join(os.TempDir(), "parusers")
+	}
+	if b, err := exec.Command("go", "build", "-race", "-o", bin, "./cmd/parusers").CombinedOutput(); err != nil {
+		res.Notes = append(res.Notes, "race-enabled build of the real users of par.Cache not available: "+strings.TrimSpace(string(b)))
+		return
+	}
+	defer os.Remove(bin)
+	c := exec.Command(bin, "-dur", dur.String())
+	c.Env = append(os.Environ(), "GORACE=halt_on_error=1 exitcode=66")
+	b, err := c.CombinedOutput()
+	outS := string(b)
+	res.Count("users-stress-runs")
+	switch {
+	case strings.Contains(outS, "DATA RACE"):
+		d := outS[strings.Index(outS, "WARNING: DATA RACE"):]
+		if len(d) > 1500 {
+			d = d[:1500]
+		}
+		if strings.Contains(d, "/par.") || strings.Contains(d, "par/work.go") {
+			violate("cache/users-race-detector", "the race detector reports a data race through par.Cache in the repository's own users (goproxytest / testscript):\n"+d,
+				map[string]string{"prop": prop, "cfg": "parusers", "decisions": "-"})
+		} else {
+			res.Notes = append(res.Notes, "race detector report outside par in the users stress (not attributed to C10): "+d[:min(len(d), 400)])
+		}
+	case strings.Contains(outS, "got different answers"):
+		violate("cache/users-same-answer", "concurrent users of the proxy caches got different answers: "+strings.TrimSpace(outS),
+			map[string]string{"prop": prop, "cfg": "parusers", "decisions": "-"})
+	case err != nil || !strings.Contains(outS, "ok users"):
+		res.Notes = append(res.Notes, "users stress did not complete (environment; not a finding): "+strings.TrimSpace(outS[:min(len(outS), 400)]))
+	default:
+		res.Notes = append(res.Notes, "go build -race stress of goproxytest.Server and testscript (execCache): "+strings.TrimSpace(outS))
+		res.Evaluations++
+	}
+}
+
 // ---------------------------------------------------------------- replay, corpus, main
 
 func replayInput(in map[string]string, src string) {
@@ -2104,6 +2173,9 @@ func replayInput(in map[string]string, src string) {
 		if !ok {
 			if strings.HasPrefix(in["cfg"], "parrace") {
 				raceEvidence("cache", 5*time.Second, false)
+			}
+			if in["cfg"] == "parusers" {
+				usersEvidence(10 * time.Second)
 			}
 			return
 		}
@@ -2198,6 +2270,9 @@ func main() {
 		mainCache()
 	}
 	if fl.Tier == "thorough" {
+		if prop == "C10" {
+			usersEvidence(40 * time.Second)
+		}
 		raceEvidence(what, 60*time.Second, false)
 	} else {
 		raceEvidence(what, 3*time.Second, false)
